@@ -1,6 +1,6 @@
 (* C15 — Text functions satisfy the string algebra they document.
    Property theorems only; proofs are in Proofs/TextProofs.v and Proofs/TextAlgebra.v.  Case tables: Gen/CaseTables.v (generated). *)
-From HX Require Import Model.Value Model.Text Gen.CaseTables Proofs.TextProofs Proofs.TextAlgebra.
+From HX Require Import Model.Value Model.Text Model.PySlice Gen.CaseTables Gen.TextSlices Proofs.TextProofs Proofs.TextAlgebra Proofs.SliceProofs.
 Open Scope Z_scope.
 
 (* LEFT / RIGHT / MID: the requested leading, trailing, inner characters *)
@@ -120,6 +120,21 @@ Proof. exact CLEAN_app. Qed.
 Theorem C15_CLEAN_never_lengthens : forall s, fn_LEN (fn_CLEAN s) <= fn_LEN s.
 Proof. exact len_CLEAN_le. Qed.
 
+(* the source terms of LEFT / RIGHT / MID (Gen/TextSlices.v, regenerated from text.py on every run) under Python's
+   slice semantics ARE the model functions the theorems above speak about (Proofs/SliceProofs.v) *)
+Theorem C15_source_slices_are_the_model : forall s st n,
+  run_slicefn gen_LEFT s [n] = fn_LEFT s n /\ run_slicefn gen_RIGHT s [n] = fn_RIGHT s n /\
+  run_slicefn gen_MID s [st; n] = fn_MID s st n.
+Proof. intros s st n. repeat split; [exact (source_LEFT_is_model s n)|exact (source_RIGHT_is_model s n)|exact (source_MID_is_model s st n)]. Qed.
+Theorem C15_source_slices_understood :
+  gen_LEFT_defaults = [1] /\ gen_RIGHT_defaults = [1] /\ gen_MID_defaults = [1] /\ slices_gen_ok = true.
+Proof. exact source_defaults. Qed.
+Theorem C15_source_left_right_split : forall s n, 0 <= n <= zlen s ->
+  exists a b, run_slicefn gen_LEFT s [n] = TOk a /\ run_slicefn gen_RIGHT s [fn_LEN s - n] = TOk b /\ a ++ b = s.
+Proof. intros s n H. rewrite source_LEFT_is_model, source_RIGHT_is_model. exact (left_right_split s n H). Qed.
+Theorem C15_source_zero_count_is_empty : forall s, run_slicefn gen_LEFT s [0] = TOk [] /\ run_slicefn gen_RIGHT s [0] = TOk [].
+Proof. intros s. rewrite source_LEFT_is_model, source_RIGHT_is_model. split; [exact (LEFT_zero s)|exact (RIGHT_zero s)]. Qed.
+
 Example C15_examples :
   fn_RIGHT [97; 98; 99] 0 = TOk [] /\ fn_RIGHT [97; 98; 99] 2 = TOk [98; 99] /\
   fn_SUBSTITUTE [97; 98; 99; 98] [98] [] None = TOk [97; 99] /\
@@ -132,6 +147,8 @@ Example C15_examples :
 Proof. vm_compute. repeat split; reflexivity. Qed.
 
 Print Assumptions C15_left_right_split.
+Print Assumptions C15_source_slices_are_the_model.
+Print Assumptions C15_source_left_right_split.
 Print Assumptions C15_left_mid_right_split.
 Print Assumptions C15_len_of_MID.
 Print Assumptions C15_slices_of_concat.
